@@ -229,8 +229,10 @@ class C07(Prop, ScriptGen):
         # SEQUENCE cases: histories of calls in one process, all 16 flag sets, known-finding shapes interleaved
         i = 0
         for rep in range(3 if big else 1):
-            for (tag, steps) in self.seq_histories(crng, ALL_MASKS):
+            for (tag, steps) in self.seq_histories(crng, ALL_MASKS, findings=True):
                 r = crng.random()          # at most one kind of known finding per history (drawn in every shard)
+                if tag.startswith('seq-after-D'):
+                    r = 1.0                # the history already contains its known-finding step
                 i += 1
                 if i % nshards != shard:
                     continue
@@ -429,6 +431,8 @@ class C07(Prop, ScriptGen):
         tag = c.get('tag', '')
         if c['op'] == 'c07.seq':
             n = len(a) // 7
+            if 'E' in a[0::7]:
+                return                      # kind E depends on the steps before it
             for k in range(n):
                 if n > 1:
                     yield Case(op=c['op'], args=a[:7 * k] + a[7 * (k + 1):], tag=tag)
